@@ -1207,10 +1207,12 @@ class Vector():
 			Sorted vector with same dtype
 		"""
 		# Build key for each element
-		if na_last:
-			key_fn = lambda x: (x is None, x if x is not None else 0)
-		else:
-			key_fn = lambda x: (0 if x is None else 1, x if x is not None else 0)
+		# The None flag is flipped under reverse so that None placement does not
+		# depend on the sort direction (same scheme as Table.sort_by)
+		def key_fn(x, reverse=bool(reverse), na_last=bool(na_last)):
+			is_none = x is None
+			flag = (is_none == na_last) != reverse
+			return (flag, 0 if is_none else x)
 		
 		new_values = tuple(sorted(self._underlying, key=key_fn, reverse=reverse))
 
